@@ -116,6 +116,71 @@ class Evaluator:
                 self._const_cache[path] = None
         return self._const_cache[path]
 
+    concrete_strings = False      # set by a rule that evaluates a string function over a finite vocabulary
+
+    def _parse_int(self, text, radix, ty):
+        """`uN::from_str_radix(text, radix)` / `text.parse::<uN>()` (ty names the Result type)."""
+        import re as _re
+        m = _re.search(r"Result<(u8|u16|u32|u64|usize)\b", ty)
+        if not m:
+            raise Unrecognised(f"integer parse into {ty}")
+        bits = {"u8": 8, "u16": 16, "u32": 32, "u64": 64, "usize": 64}[m.group(1)]
+        digits = text[1:] if text.startswith("+") else text
+        ok = digits != "" and all(c in "0123456789abcdefghijklmnopqrstuvwxyz"[:radix] for c in digits.lower()) and all(ord(c) < 128 for c in digits)
+        if ok and int(digits, radix) < (1 << bits):
+            return ("ok", ("int", int(digits, radix)))
+        return ("err", ("sym", "parse-int-error"))
+
+    def _str_method(self, short, cal, args, e):
+        """Concrete semantics of the `str` / `String` methods the parsers use (ASCII-only where byte offsets matter)."""
+        s0 = args[0][1]
+
+        def pat_text(p):
+            if p[0] == "str":
+                return p[1]
+            if p[0] == "char":
+                return chr(p[1])
+            raise Unrecognised(f"string pattern {p}")
+        if short in ("to_lowercase", "to_ascii_lowercase") and len(args) == 1:
+            return ("str", s0.lower())
+        if short in ("to_uppercase", "to_ascii_uppercase") and len(args) == 1:
+            return ("str", s0.upper())
+        if short in ("to_owned", "to_string", "as_ref", "as_str", "deref", "borrow", "clone", "trim") and len(args) == 1:
+            return ("str", s0.strip()) if short == "trim" else args[0]
+        if short == "len" and len(args) == 1:
+            return ("int", len(s0.encode()))
+        if short == "strip_prefix" and len(args) == 2:
+            t = pat_text(args[1])
+            return ("some", ("str", s0[len(t):])) if s0.startswith(t) else ("none",)
+        if short == "strip_suffix" and len(args) == 2:
+            t = pat_text(args[1])
+            return ("some", ("str", s0[:len(s0) - len(t)])) if t and s0.endswith(t) else (("some", ("str", s0)) if not t else ("none",))
+        if short == "starts_with" and len(args) == 2:
+            return ("bool", s0.startswith(pat_text(args[1])))
+        if short == "ends_with" and len(args) == 2:
+            return ("bool", s0.endswith(pat_text(args[1])))
+        if short == "split_whitespace" and len(args) == 1:
+            return ("array",) + tuple(("str", w) for w in s0.split())
+        if short == "split" and len(args) == 2:
+            return ("array",) + tuple(("str", w) for w in s0.split(pat_text(args[1])))
+        if short == "split_once" and len(args) == 2:
+            t = pat_text(args[1])
+            if t in s0:
+                a_, b_ = s0.split(t, 1)
+                return ("some", ("tuple", ("str", a_), ("str", b_)))
+            return ("none",)
+        if short == "bytes" and len(args) == 1:
+            return ("array",) + tuple(("int", x) for x in s0.encode())
+        if short == "chars" and len(args) == 1:
+            return ("array",) + tuple(("char", ord(x)) for x in s0)
+        if short == "parse" and len(args) == 1:
+            return self._parse_int(s0, 10, str(e.get("ty", "")))
+        if short == "eq" and len(args) == 2 and args[1][0] == "str":
+            return ("bool", s0 == args[1][1])
+        if short == "eq_ignore_ascii_case" and len(args) == 2 and args[1][0] == "str":
+            return ("bool", s0.lower() == args[1][1].lower())
+        return None
+
     def _discr(self, variant):
         """Discriminant of a fieldless enum variant (from the item facts)."""
         if not hasattr(self, "_discrs"):
@@ -171,6 +236,8 @@ class Evaluator:
                 return ("str", e["v"])
             if t == "int":
                 return ("int", e["v"])
+            if t == "char":
+                return ("char", e["v"])
             raise Unrecognised("literal")
         if k == "local":
             if e["name"] not in env:
@@ -298,6 +365,27 @@ class Evaluator:
             if self.truth(self.ev(c, env)):
                 return self.ev(e["t"], env)
             return self.ev(e["e"], env) if "e" in e else ("unit",)
+        if k == "match" and e.get("src") == "ForLoopDesugar":
+            fl = hir.for_loop(e)
+            if fl:
+                pat, it, body = fl
+                seq = self.ev(it, env)
+                if seq[0] != "array":
+                    raise Unrecognised(f"for loop over {str(seq)[:40]}")
+                for el in seq[1:]:
+                    env2 = Env(env) if isinstance(env, Env) else Env(_as_env(env))
+                    if not self.bind(pat, el, env2):
+                        raise Unrecognised("refutable for-loop pattern")
+                    try:
+                        self.ev(body, env2)
+                    except Break as br:
+                        if br.label is None:
+                            break
+                        raise
+                    except Continue as ct:
+                        if ct.label is not None:
+                            raise
+                return ("unit",)
         if k == "match":
             if e.get("src") == "TryDesugar":
                 inner = hir.try_inner(e)
@@ -345,6 +433,14 @@ class Evaluator:
             ps_ = hir.place_str(b_)
             if ps_ is not None and ("load:" + ps_) in self.atoms:
                 return self.atoms["load:" + ps_]([i_])
+            if self.concrete_strings and i_[0] == "rec" and set(i_[1]) <= {"start", "end"}:
+                sv = self.ev(b_, env)
+                if sv[0] == "str" and all(ord(c) < 128 for c in sv[1]) and all(v[0] == "int" for v in i_[1].values()):
+                    lo = i_[1]["start"][1] if "start" in i_[1] else 0
+                    hi = i_[1]["end"][1] if "end" in i_[1] else len(sv[1])
+                    if not 0 <= lo <= hi <= len(sv[1]):
+                        raise Unrecognised(f"string slice {lo}..{hi} out of bounds of {sv[1]!r}: would panic")
+                    return ("str", sv[1][lo:hi])
             base = None
             if b_.get("k") == "def":
                 base = self._const_value(b_["path"])
@@ -701,6 +797,31 @@ class Evaluator:
             return self.atoms["transmute"](args + [e.get("ty")])
         if short == "is_empty" and args and args[0][0] == "str":
             return ("bool", args[0][1] == "")
+        if args and args[0][0] == "str" and self.concrete_strings:
+            v = self._str_method(short, cal, args, e)
+            if v is not None:
+                return v
+        if args and args[0][0] == "array" and self.concrete_strings:
+            if short == "all" and len(args) == 2:
+                return ("bool", all(self.truth(self.apply(args[1], [x])) for x in args[0][1:]))
+            if short == "any" and len(args) == 2:
+                return ("bool", any(self.truth(self.apply(args[1], [x])) for x in args[0][1:]))
+            if short == "find" and len(args) == 2:
+                for x in args[0][1:]:
+                    if self.truth(self.apply(args[1], [x])):
+                        return ("some", x)
+                return ("none",)
+            if short == "position" and len(args) == 2:
+                for i_, x in enumerate(args[0][1:]):
+                    if self.truth(self.apply(args[1], [x])):
+                        return ("some", ("int", i_))
+                return ("none",)
+        if short == "is_ascii_hexdigit" and args and args[0][0] == "int":
+            return ("bool", chr(args[0][1]) in "0123456789abcdefABCDEF" if 0 <= args[0][1] < 128 else False)
+        if short == "is_ascii_digit" and args and args[0][0] == "int":
+            return ("bool", 48 <= args[0][1] <= 57)
+        if short == "from_str_radix" and len(args) == 2 and args[0][0] == "str" and args[1][0] == "int" and self.concrete_strings:
+            return self._parse_int(args[0][1], args[1][1], str(e.get("ty", "")))
         if cal.endswith("core::convert::Into<U>>::into") and len(args) == 1:
             # the blanket `Into`: the `From` impl of the target type for the argument's type
             src_ty = str(hir.simp(e["args"][0]).get("ty", "")).lstrip("&")
